@@ -205,25 +205,29 @@ func realScan(src string) (toks []token.Token, err error, pan string) {
 	}
 }
 
-func commentsOf(src string) (string, error) {
+// streamsOf scans src with the real scanner and returns the sorted multiset of comment texts and
+// the sequence of all other tokens.
+func streamsOf(src string) (comments string, tokens string, err error) {
 	if len(src) == 0 {
-		return "", nil
+		return "", "", nil
 	}
 	toks, err, pan := realScan(src)
 	if pan != "" {
-		return "", fmt.Errorf("scanner panic: %s", pan)
+		return "", "", fmt.Errorf("scanner panic: %s", pan)
 	}
 	if err != nil {
-		return "", err
+		return "", "", err
 	}
-	var cs []string
+	var cs, ts []string
 	for _, t := range toks {
 		if t.Type == token.COMMENT || t.Type == token.DOCUMENT {
 			cs = append(cs, strings.TrimSpace(t.Text))
+		} else {
+			ts = append(ts, t.Text)
 		}
 	}
 	sort.Strings(cs)
-	return strings.Join(cs, "\x01"), nil
+	return strings.Join(cs, "\x01"), strings.Join(ts, " "), nil
 }
 
 // ---------------------------------------------------------------------------------------------
@@ -247,8 +251,11 @@ type verdict struct {
 //	               Parse never returns "no tree, no error";
 //	valid sources: format.Source succeeds; the output parses; it has the same digest (kinds, names,
 //	               values, tags, order) and the same multiset of comment texts; formatting the
-//	               output again returns it unchanged.
-func checkSource(src string) verdict {
+//	               output again returns it unchanged. With strictTokens ("only whitespace and
+//	               comment placement may differ") the sequence of non-comment tokens of the real
+//	               scanner must be unchanged too (catches anything parser and formatter lose
+//	               consistently); it is off where the formatter may drop an empty container.
+func checkSource(src string, strictTokens bool) verdict {
 	var v verdict
 	if len(src) == 0 {
 		return v // scanner.MustNewScanner log.Fatal()s on empty input: outside the property's domain
@@ -270,7 +277,7 @@ func checkSource(src string) verdict {
 	}
 	v.Accepted = true
 	dx := digestAST(a, true)
-	cx, cerr := commentsOf(src)
+	cx, tx, cerr := streamsOf(src)
 	if cerr != nil {
 		v.Fails = append(v.Fails, failure{"scan-disagrees", "parser accepted, scanner alone fails: " + cerr.Error()})
 	}
@@ -305,10 +312,15 @@ func checkSource(src string) verdict {
 		v.Fails = append(v.Fails, failure{"ast-changed", "want " + oneLine(dx) + " got " + oneLine(dy)})
 	}
 	if cerr == nil {
-		cy, cerr2 := commentsOf(y)
+		cy, ty, cerr2 := streamsOf(y)
 		if cerr2 != nil {
 			v.Fails = append(v.Fails, failure{"formatted-unparsable", "scanner: " + cerr2.Error()})
-		} else if cx != cy {
+			return v
+		}
+		if strictTokens && tx != ty && dx == dy {
+			v.Fails = append(v.Fails, failure{"tokens-changed", fmt.Sprintf("non-comment tokens before %q after %q", tx, ty)})
+		}
+		if cx != cy {
 			o := "comment-changed"
 			switch {
 			case len(cy) < len(cx) && strings.Contains(cx, cy):
@@ -380,6 +392,7 @@ const (
 	mutDelete = "delete"
 	mutDup    = "duplicate"
 	mutSwap   = "swap"
+	mutCut    = "truncate" // cut the text in the middle of token At (after its first byte): unterminated strings, lone '@', ...
 )
 
 type mutation struct {
@@ -418,6 +431,18 @@ func mutate(ps []piece, tail string, m mutation) (string, bool) {
 				sb.WriteString(" ")
 				sb.WriteString(p.Text)
 			}
+		}
+	case mutCut:
+		for i, p := range ps {
+			sb.WriteString(p.Gap)
+			if i == m.At {
+				if len(p.Text) < 2 {
+					return "", false // cutting after a one-byte token is the deletion of its successors only
+				}
+				sb.WriteString(p.Text[:1])
+				return sb.String(), true
+			}
+			sb.WriteString(p.Text)
 		}
 	case mutSwap:
 		if m.At+1 >= len(ps) || ps[m.At].Text == ps[m.At+1].Text {
